@@ -30,7 +30,10 @@ def round (p q : Rat) (c : Int) : Int := roundEven (val p c / q)
     periods are integer multiples, `gcd(p.num, q.num) / lcm(p.den, q.den)` -/
 def commonPeriod (p q : Rat) : Rat := (Int.gcd p.num q.num : Int) / (Nat.lcm p.den q.den : Int)
 
-/-- the tick count of the value `x` in the period `cp` (exact for the values that occur: see `…_exact`) -/
+/-- the tick count of the value `x` in the period `cp` (exact for the values that occur: see `…_exact`).
+    `inPeriod` is total (it would floor a non-multiple of `cp`); it is used by the driver for the R2 comparison with
+    libstdc++ only - the theorems `add_exact`, `sub_exact`, `mod_exact`, … do not go through it: they state
+    `result * cp = value` directly, so nothing is proved "because of the floor". -/
 def inPeriod (cp x : Rat) : Int := (x / cp).floor
 
 def add (p q : Rat) (a b : Int) : Int := inPeriod (commonPeriod p q) (val p a + val q b)
@@ -40,6 +43,19 @@ def div (p q : Rat) (a b : Int) : Int := trunc (val p a / val q b)
 /-- `d1 % d2`: `d1 - (d1 / d2) * d2` -/
 def mod (p q : Rat) (a b : Int) : Int :=
   inPeriod (commonPeriod p q) (val p a - (div p q a b : Int) * val q b)
+/-- `d * s`, `s * d` ([time.duration.nonmember]): the value `s` times as long, in ticks of the period of `d` -/
+def mulRep (p : Rat) (c s : Int) : Int := inPeriod p (val p c * s)
+/-- `d / s`: the value divided by `s`, in whole ticks of the period of `d`, truncated toward zero -/
+def divRep (p : Rat) (c s : Int) : Int := trunc (val p c / s / p)
+/-- `d % s`: what `d / s` leaves over, `d - (d / s) * s` -/
+def modRep (p : Rat) (c s : Int) : Int := inPeriod p (val p c - val p (divRep p c s) * s)
+/-- `time_point + duration`, `duration + time_point` ([time.point.nonmember]): the point whose distance from the epoch is the
+    sum of the two values, in ticks of the common period -/
+def tpPlus (p q : Rat) (a b : Int) : Int := inPeriod (commonPeriod p q) (val p a + val q b)
+/-- `time_point - duration` -/
+def tpMinus (p q : Rat) (a b : Int) : Int := inPeriod (commonPeriod p q) (val p a - val q b)
+/-- `time_point - time_point`: the duration between the two points, in ticks of the common period -/
+def tpDiff (p q : Rat) (a b : Int) : Int := inPeriod (commonPeriod p q) (val p a - val q b)
 def eq (p q : Rat) (a b : Int) : Bool := decide (val p a = val q b)
 def lt (p q : Rat) (a b : Int) : Bool := decide (val p a < val q b)
 /-- conversion to the common type keeps the value -/
